@@ -131,7 +131,7 @@ theorem convolve_slices (T : CTable Rat) (dim : Nat) (ck : List Rat) (d : CDim R
     (h12 : d.order + ck.length - 1 ≤ 12) :
     ∃ R d', convolve T dim ck = some R ∧ R.dims[dim]? = some d' ∧
       d'.knots = sortKnots (pairSums d.knots ck) ∧ d'.order = d.order + ck.length - 1 ∧
-      d'.naxes = d'.knots.length - d'.order - 1 ∧
+      d'.naxes = d'.knots.length - d'.order - 1 ∧ d'.nknots = d'.knots.length ∧
       ∀ i k, i < prodL ((T.dims.map (·.naxes)).take dim) → k < prodL ((T.dims.map (·.naxes)).drop (dim+1)) →
       ∀ (t : Int → Rat), (∀ z : Nat, z < d'.knots.length → t (z : Int) = getK d'.knots z) →
       ∀ (left : Nat) (x : Rat), left + 1 < d'.knots.length → getK d'.knots left < getK d'.knots (left+1) →
@@ -166,7 +166,7 @@ theorem convolve_slices (T : CTable Rat) (dim : Nat) (ck : List Rat) (d : CDim R
   refine ⟨_, { order := p + ck.length - 1, nknots := rho.length, naxes := nNew,
                stride := (rowMajor (setAt nax dim nNew)).1.getD dim 0, knots := rho,
                extLo := if Arith.lt d.extLo (getK d.knots p) then getK rho 0 else getK rho (p + ck.length - 1),
-               extHi := Arith.add d.extHi (getK ck 0) }, rfl, ?_, rfl, rfl, rfl, ?_⟩
+               extHi := Arith.add d.extHi (getK ck 0) }, rfl, ?_, rfl, rfl, rfl, rfl, ?_⟩
   · rw [restride_getElem?, setAt_self _ _ _ hdim]
     rfl
   · intro i k hi hk' t ht left x hleft hne hx1 hx2
